@@ -121,6 +121,11 @@ def _type_check_constant_reference(expression, source_file_name, ir, errors):
                     ),
                 ]
             )
+            # Leave the reference typed (as a value nothing can use), so that
+            # checks of enclosing expressions do not trip over a missing type.
+            ir_data_utils.builder(expression).type.opaque.CopyFrom(
+                ir_data.OpaqueType()
+            )
             return
         _type_check_expression(
             referred_object.read_transform, referred_name.module_file, ir, errors
